@@ -91,6 +91,8 @@ class Event(object):
         return (self.conn.ci, self.conn.si, self.seq)
 
     def label(self):
+        if self.direction == "cpu":
+            return "cpu#%d:%s" % (self.seq, self.meth[4:])
         return "c%d%ss%d#%d:%s" % (self.conn.ci, ">" if self.direction == "c2s" else "<", self.conn.si, self.seq, self.meth)
 
 
@@ -167,6 +169,39 @@ class Sched(object):
         self.hooks = {}                       # methname -> callable(ev, result) -> result   (lying servers etc.)
         self.observers = []                   # callable(kind, ev, outcome)
 
+    # -------------------------------------------------------------- CPU work as scheduled events
+    def cpu_events(self, on=True):
+        """vt.boot makes allmydata's defer_to_thread() run its function synchronously.  In production
+        the result comes back from the thread pool in a LATER reactor turn, and answers from the
+        network can be handled in between.  With cpu_events every defer_to_thread() call of the code
+        under test becomes a pending event on a virtual 'cpu' connection (FIFO; it sorts first, so the
+        default schedule finishes CPU work before the next answer is delivered and every other order
+        is a deviation).  restore with cpu_events(False) (Grid.close does)."""
+        import allmydata.codec as _codec
+        import allmydata.mutable.retrieve as _rt
+        import allmydata.mutable.publish as _pb
+        import allmydata.mutable.filenode as _fn
+        mods = [_codec, _rt, _pb, _fn]
+        if not on:
+            for m, orig in getattr(self, "_cpu_saved", []):
+                m.defer_to_thread = orig
+            self._cpu_saved = []
+            return
+        if getattr(self, "_cpu_saved", None):
+            return
+        conn = Conn(-1, -1)
+        sched = self
+
+        async def via_sched(f, *a, **kw):
+            d = defer.Deferred()
+            conn.seq += 1
+            name = getattr(f, "__name__", "f")
+            sched.pending.append(Event(conn, conn.seq, "cpu:" + name.strip("<>"), (f, a, kw), {}, d, None, "cpu"))
+            return await d
+        self._cpu_saved = [(m, m.defer_to_thread) for m in mods]
+        for m in mods:
+            m.defer_to_thread = via_sched
+
     # -------------------------------------------------------------- membrane
     def membrane(self, x, conn, direction):
         if isinstance(x, VRef):
@@ -184,6 +219,12 @@ class Sched(object):
     # -------------------------------------------------------------- actions
     def _execute(self, ev):
         """run the real remote_<meth>; returns ('ok', value) or ('err', Failure)"""
+        if ev.direction == "cpu":
+            f, a, kw = ev.args
+            try:
+                return ("ok", f(*a, **kw))
+            except Exception:
+                return ("err", Failure())
         try:
             meth = getattr(ev.target, "remote_" + ev.meth)
             res = meth(*ev.args, **ev.kwargs)
@@ -243,7 +284,7 @@ class Sched(object):
             elif ev.meth == "slot_testv_and_readv_and_writev" and not ev.executed:
                 self.do_fault(ev, "refuse")
                 return
-        if self.split and not ev.executed:
+        if self.split and not ev.executed and ev.direction != "cpu":
             ev.executed = True
             ev.result = self._execute(ev)
             self._note("execute", ev, ev.result)
@@ -320,7 +361,7 @@ class Sched(object):
         m = [("deliver", e.label(), e) for e in evs]
         if self.explore and self.fault_kinds:
             for e in evs:
-                if e.executed:
+                if e.executed or e.direction == "cpu":
                     continue
                 if self.fault_filter is not None and not self.fault_filter(e):
                     continue
@@ -714,6 +755,7 @@ class Grid(object):
         return h.hexdigest()[:16]
 
     def close(self):
+        self.sched.cpu_events(False)
         try:
             for c in self.clients:
                 c.terminator.stopService()
